@@ -140,6 +140,8 @@ def worker(x):
                                                                 math.degrees(twoth), chi, wedge)
         try:
             if cs["kind"] == "reach":
+                if x.get("degenerate"):
+                    continue          # g parallel to the rotation axis and on the Bragg cone: every omega diffracts (excluded)
                 se, ce = cs["eta"][1] / cs["eta"][2], cs["eta"][0] / cs["eta"][2]
                 glab = np.array([-st * st, -s2t * se / 2.0, s2t * ce / 2.0])
                 Om = np.array(x["N"], dtype=float) / x["den"]
@@ -228,8 +230,14 @@ def run(tier, seed):
     v = common.Verdict("C09", tier, seed)
     wd = common.workdir("C09")
     rng = random.Random(seed + 9)
-    cases, un = make_cases(rng, tier)
-    common.write_data_module(wd, "OmegaCases", {"Cases": common.TlaSet(cases), "Unreach": common.TlaSet(un)})
+    cases, un = make_cases(rng, "quick")
+    prod = {"PSolvers": common.TlaSet([]), "PTh": common.TlaSet([]), "PEta": common.TlaSet([]), "POm": common.TlaSet([]), "PTilt": common.TlaSet([])}
+    if tier == "thorough":
+        A = angles()
+        prod = {"PSolvers": common.TlaSet(["plain", "general", "quart", "wedge"]), "PTh": common.TlaSet([list(t) for t in TH]),
+                "PEta": common.TlaSet([list(a) for a in rng.sample(A, 14)]), "POm": common.TlaSet([list(a) for a in rng.sample(A, 10)]),
+                "PTilt": common.TlaSet([list(t) for t in TILT])}
+    common.write_data_module(wd, "OmegaCases", dict({"Cases": common.TlaSet(cases), "Unreach": common.TlaSet(un)}, **prod))
     r = common.run_tlc("Omega", "MC_Omega.cfg", wd, timeout=3000, heap="12g")
     if r.violated:
         raise common.MachineryError("Omega.tla: model-level identity violated: %s" % r.violated)
